@@ -9,6 +9,7 @@ import (
 	"io"
 	"net/http"
 	"net/http/httptest"
+	"time"
 
 	"github.com/filecoin-project/go-jsonrpc"
 )
@@ -159,6 +160,7 @@ func dispatchClients(fi int, regSeqs [][]dReg) {
 }
 
 func dispatchFamily(seed uint64, tier string, args []string) {
+	dispatchReverse()
 	nss := []string{"A", "B", ""}
 	var regSeqs [][]dReg
 	regSeqs = append(regSeqs, nil)
@@ -260,3 +262,74 @@ func sortStrings(s []string) {
 }
 
 func init() { families["dispatch"] = dispatchFamily }
+
+// reverse calls: the server's reverse client and the client-side handler table agree on the method name for every
+// formatter, whichever way round the server lists WithReverseClient and WithServerMethodNameFormatter
+type dRevCase struct {
+	ReverseNaming bool   `json:"reverse_naming"`
+	Fmt           int    `json:"fmt"`
+	OptionFirst   bool   `json:"reverse_option_first"`
+	Result        int    `json:"result"`
+	Err           string `json:"err,omitempty"`
+	Oracle        string `json:"oracle_fail,omitempty"`
+}
+
+type dRevAPI struct {
+	Who func(ctx context.Context) (int, error)
+}
+type dRevClientHandler struct{}
+
+func (dRevClientHandler) Who(ctx context.Context) (int, error) { return 4242, nil }
+
+type dRevServerHandler struct{}
+
+func (dRevServerHandler) CallBack(ctx context.Context) (int, error) {
+	rev, ok := jsonrpc.ExtractReverseClient[dRevAPI](ctx)
+	if !ok {
+		return -1, nil
+	}
+	return rev.Who(ctx)
+}
+
+func dispatchReverse() {
+	for fi := 0; fi < 5; fi++ {
+		for _, first := range []bool{false, true} {
+			f := formatterOf(fi)
+			sopts := []jsonrpc.ServerOption{jsonrpc.WithServerMethodNameFormatter(f), jsonrpc.WithServerPingInterval(0)}
+			if first {
+				sopts = append([]jsonrpc.ServerOption{jsonrpc.WithReverseClient[dRevAPI]("R")}, sopts...)
+			} else {
+				sopts = append(sopts, jsonrpc.WithReverseClient[dRevAPI]("R"))
+			}
+			srv := jsonrpc.NewServer(sopts...)
+			srv.Register("S", dRevServerHandler{})
+			ts := httptest.NewServer(srv)
+			var cl struct {
+				CallBack func(ctx context.Context) (int, error)
+			}
+			c := dRevCase{ReverseNaming: true, Fmt: fi, OptionFirst: first}
+			closer, err := jsonrpc.NewMergeClient(context.Background(), "ws"+ts.URL[4:], "S", []interface{}{&cl}, nil,
+				jsonrpc.WithMethodNameFormatter(f), jsonrpc.WithNoReconnect(), jsonrpc.WithPingInterval(0), jsonrpc.WithClientHandler("R", dRevClientHandler{}))
+			if err != nil {
+				c.Oracle = "client construction failed: " + err.Error()
+				emit(c)
+				ts.Close()
+				continue
+			}
+			ctx, cancel := context.WithTimeout(context.Background(), 3*time.Second)
+			v, e := cl.CallBack(ctx)
+			cancel()
+			c.Result = v
+			if e != nil {
+				c.Err = e.Error()
+			}
+			if e != nil || v != 4242 {
+				c.Oracle = fmt.Sprintf("server and client share formatter %d (WithReverseClient listed first: %v) but the reverse call did not reach the client's method: result %d, error %q", fi, first, v, c.Err)
+			}
+			emit(c)
+			closer()
+			ts.CloseClientConnections()
+			ts.Close()
+		}
+	}
+}
